@@ -30,6 +30,7 @@
 static char *magic_id = "NEOL";
 static uint32_t driver_id = 0x20260113; /* increment when driver changes */
 static uint64_t config_id = 0;
+static char simul_efun_path[PATH_MAX] = "";	/* the simul_efun file, relative to the mudlib */
 
 static FILE *crdir_fopen(char *);
 static void patch_out (program_t *, short *, size_t);
@@ -514,6 +515,15 @@ program_t *load_binary (const char *name) {
       FREE (buf);
       return OUT_OF_DATE;
     }
+  /* config_id is the state of the simul_efun file when the simul_efun object was
+   * loaded; a file that was changed since is newer than this binary as well */
+  if (simul_efun_path[0] && check_times (mtime, simul_efun_path) == 0)
+    {
+      opt_trace (TT_COMPILE|3, "out of date. (simul_efun file is newer)\n");
+      fclose (f);
+      FREE (buf);
+      return OUT_OF_DATE;
+    }
 
   /*
    * [READ_INCLUDE_LIST]
@@ -861,6 +871,38 @@ program_t *load_binary (const char *name) {
   return prog;
 }
 
+/**
+ * The compiled LPC program contains opcodes that use simul_efun indexes, so the
+ * modification time of the simul_efun file is part of the config_id: binaries are
+ * recompiled when the simul_efun definitions change.  Called at start-up and
+ * whenever the simul_efun object has been (re)loaded.
+ */
+void binaries_simul_efun_loaded () {
+
+  config_id = 0;
+  simul_efun_path[0] = '\0';
+  if (CONFIG_STR(__SAVE_BINARIES_DIR__) && CONFIG_STR(__SIMUL_EFUN_FILE__))
+    {
+      struct stat st;
+      const char *nm = CONFIG_STR(__SIMUL_EFUN_FILE__);
+      size_t n;
+
+      /* the name is a mudlib path as given to load_object(): relative to the mudlib
+       * directory even with a leading slash, and the ".c" may be omitted */
+      while (*nm == '/')
+        nm++;
+      strncpy (simul_efun_path, nm, sizeof (simul_efun_path) - 3);
+      simul_efun_path[sizeof (simul_efun_path) - 3] = '\0';
+      n = strlen (simul_efun_path);
+      if (n < 2 || strcmp (simul_efun_path + n - 2, ".c") != 0)
+        strcat (simul_efun_path, ".c");
+      if (0 == stat (simul_efun_path, &st))
+        {
+          config_id = (uint64_t)st.st_mtime;
+        }
+    }
+}
+
 void init_binaries () {
 
   if (CONFIG_STR(__SAVE_BINARIES_DIR__))
@@ -870,28 +912,7 @@ void init_binaries () {
        * the config_id to ensure that binaries are recompiled when the
        * simul_efun definitions change.
        */
-      if (CONFIG_STR(__SIMUL_EFUN_FILE__))
-        {
-          struct stat st;
-          char sefun[PATH_MAX];
-          const char *nm = CONFIG_STR(__SIMUL_EFUN_FILE__);
-          size_t n;
-
-          /* the name is a mudlib path as given to load_object(): relative to the mudlib
-           * directory even with a leading slash, and the ".c" may be omitted */
-          while (*nm == '/')
-            nm++;
-          strncpy (sefun, nm, sizeof (sefun) - 3);
-          sefun[sizeof (sefun) - 3] = '\0';
-          n = strlen (sefun);
-          if (n < 2 || strcmp (sefun + n - 2, ".c") != 0)
-            strcat (sefun, ".c");
-          config_id = 0;
-          if (0 == stat (sefun, &st))
-            {
-              config_id = (uint64_t)st.st_mtime;
-            }
-        }
+      binaries_simul_efun_loaded ();
       debug_message ("{}\tusing #pragma save_binary with data directory %s", CONFIG_STR(__SAVE_BINARIES_DIR__));
       opt_trace (TT_COMPILE|1, "magic id: \"%s\" (len=%d)", magic_id, (int)strlen(magic_id));
       opt_trace (TT_COMPILE|1, "driver id: %u (len=%d)", driver_id, sizeof(driver_id));
